@@ -645,7 +645,15 @@ fn process_request_obj(request: &Request, dbs: &Arc<Databases>, client: &mut Cli
             };
             Response::Ok {}
         }),
-        Request::Arbiter {} => apply_to_database(&dbs, &client, &|db| db.register_arbiter(&client)),
+        // The arbiter is sent the conflict notices (keys and values) of the database: it needs to be
+        // allowed to read them
+        Request::Arbiter {} => apply_if_safe_access(
+            &dbs,
+            &client,
+            &String::from(crate::consensus_ops::CONFLICTS_KEY),
+            &|db| db.register_arbiter(&client),
+            PermissionKind::Read,
+        ),
         Request::Resolve {
             opp_id,
             db_name,
@@ -693,7 +701,13 @@ fn process_request_obj(request: &Request, dbs: &Arc<Databases>, client: &mut Cli
                     &PermissionKind::Read,
                 );
             } else {
-                apply_to_database(&dbs, &client, &|db| {
+                // Resolving writes the key: same checks as a set (write permission for the key,
+                // secure keys only for the admin)
+                apply_if_safe_access(
+                    &dbs,
+                    &client,
+                    &key,
+                    &|db| {
                     if apply_here {
                         db.resolve_conflit(
                             Change {
@@ -718,7 +732,9 @@ fn process_request_obj(request: &Request, dbs: &Arc<Databases>, client: &mut Cli
                         );
                         Response::Ok {}
                     }
-                });
+                    },
+                    PermissionKind::Write,
+                );
             };
             return Response::Ok {};
         }
